@@ -395,7 +395,7 @@ func c20Special(chk *fw.Check) int {
 		}
 		// (3) an entry which never got loaded (its distribution point serves garbage / is down / a fetch is still pending in
 		// fetch_background) is released by Cleanup like any other
-		for _, kind := range []string{"garbage", "down", "background-pending"} {
+		for _, kind := range []string{"garbage", "down", "background-pending", "bad-signature", "unknown-signer", "cut-off-after-the-entries", "bad-signature-in-the-background"} {
 			n++
 			kind := kind
 			sig := fmt.Sprintf("backend=%s never-loaded-entry=%s", be(disk), kind)
@@ -404,8 +404,19 @@ func c20Special(chk *fw.Check) int {
 				defer os.RemoveAll(dir)
 				net := world.NewNet()
 				for cycle := 1; cycle <= 2; cycle++ {
-					o := CWOpt{Disk: disk, SigMode: config.SignatureValidationModeVerify, Dir: dir, Net: net, Background: kind == "background-pending"}
+					o := CWOpt{Disk: disk, SigMode: config.SignatureValidationModeVerify, Dir: dir, Net: net, Background: kind == "background-pending" || kind == "bad-signature-in-the-background"}
 					switch kind {
+					case "bad-signature", "bad-signature-in-the-background":
+						// refused only after it was read completely into its staging store
+						bs := world.SimpleCRL(p.CA, 1, 901)
+						bs.BadSig = true
+						net.Serve(urlA, "badsig", bs.DER())
+					case "unknown-signer":
+						us := world.SimpleCRL(p.OtherCA, 1, 901)
+						us.IssuerRaw = p.CA.Cert.RawSubject
+						net.Serve(urlA, "unknown-signer", us.DER())
+					case "cut-off-after-the-entries":
+						net.Serve(urlA, "cut", v1[:len(v1)-20])
 					case "garbage":
 						net.Serve(urlA, "garbage", []byte("<html>503 service unavailable</html>"))
 					case "down":
@@ -424,6 +435,23 @@ func c20Special(chk *fw.Check) int {
 					}
 					leaf := world.Leaf(p.CA, bi(901), []string{urlA}, nil)
 					w.Lookup(leaf, world.Chain(leaf, p.CA, p.Root))
+					if kind != "background-pending" {
+						// while the validator lives: a load which was refused holds nothing - no second database handle, no
+						// staging directory (three more attempts: handshake, tick, handshake)
+						vsched.Drain()
+						w.Chk.VerifUpdateCRLs(true)
+						vsched.Drain()
+						w.Lookup(leaf, world.Chain(leaf, p.CA, p.Root))
+						vsched.Drain()
+						if open := vleveldb.OpenPaths(); len(open) > 1 {
+							chk.Violation("C20|database-handles-pile-up-while-running|"+sig, fmt.Sprintf("cycle %d: after three refused loads of one distribution point %d database handles are open: %v", cycle, len(open), open), nil)
+							return
+						}
+						if _, tmps, _ := ListDir(dir); len(tmps) > 0 {
+							chk.Violation("C20|temp-residue-while-running|"+sig, fmt.Sprintf("cycle %d: after three refused loads the work_dir holds %v", cycle, tmps), nil)
+							return
+						}
+					}
 					if err := w.Chk.Cleanup(); err != nil {
 						chk.Violation("C20|cleanup-error|"+sig, err.Error(), nil)
 					}
